@@ -96,6 +96,7 @@ def harnessHandle (a : HApp) (ci : CallInfo) : HApp × Dec :=
         if b.l.startsWith "s" && !a.suspOnceFinal then
           ({ a with suspOnceFinal := true, resumeReq := some (ridOf b.l) }, { act := .suspend, ctxOut := some cx })
         else if b.l == "no" then (a, { act := .fail, ctxOut := some cx })
+        else if b.l == "c" then (a, { act := .cont, ctxOut := some cx })
         else if b.l.startsWith "r" then (a, { act := .reply (mkResp a (ridOf b.l)) false, ctxOut := some cx })
         else (a, { act := .reply (mkResp a 0) false, ctxOut := some cx })
 
@@ -118,6 +119,7 @@ structure DConn where
   peerGone : Bool := false         -- client closed its end completely
   hupSeen : Bool := false          -- epoll: HUP already delivered
   lastActivity : Nat := 0
+  actSeq : Nat := 0                -- position in the time-out list (larger = more recently active)
   resumeIn : Option Nat := none
   resuming : Bool := false         -- MHD_resume_connection called, not yet processed
   newData : Bool := false          -- epoll: edge not yet consumed
@@ -132,12 +134,14 @@ structure D where
   mode : String := "select"
   timeoutMs : Nat := 0
   suspend : Bool := false
+  uriLog : Bool := true
   started : Bool := false
   stopped : Bool := false
   now : Nat := 1000000
   conns : List DConn := []
   behs : List (Nat × List (Nat × Beh)) := []      -- per connection index
   resps : List (Nat × RespSpec) := []
+  seq : Nat := 1
   failCalloc : Bool := false
   failEpollAdd : Bool := false
   cfg : Cfg := {}
@@ -165,7 +169,7 @@ def apply (d : D) (dc : DConn) (e : Ev) : DConn × List String :=
   let dc := match c'.app.resumeReq with
     | some k => { dc with resumeIn := some k, conn := { c' with app := { c'.app with resumeReq := none } } }
     | none => dc
-  let dc := if log.any (· == .queued) && d.timeoutMs != 0 then { dc with lastActivity := d.now } else dc
+  let dc := if log.any (· == .queued) && d.timeoutMs != 0 then { dc with lastActivity := d.now, actSeq := d.seq } else dc
   (dc, log.map (showEv dc.idx))
 
 def timedOut (d : D) (dc : DConn) : Bool :=
@@ -173,6 +177,7 @@ def timedOut (d : D) (dc : DConn) : Bool :=
 
 def eliRead (c : Conn HApp) : Bool := eventLoopInfo c == .read || eventLoopInfo c == .processRead
 def eliWrite (c : Conn HApp) : Bool := eventLoopInfo c == .write
+def eliProcess (c : Conn HApp) : Bool := eventLoopInfo c == .process || eventLoopInfo c == .processRead
 
 def mkEnv (d : D) (dc : DConn) : IdleEnv :=
   let ns := match dc.sock with
@@ -229,7 +234,7 @@ def doRead (d : D) (dc : DConn) (sockErr : Bool) : DConn × List String :=
         (dc1, o)
       else
         let (dc1, o) := apply d { dc with sock := rest, readReady := false } (.recv t)
-        ({ dc1 with lastActivity := if d.timeoutMs != 0 && !dc1.conn.suspended then d.now else dc1.lastActivity }, o)
+        (if d.timeoutMs != 0 && !dc1.conn.suspended then { dc1 with lastActivity := d.now, actSeq := d.seq } else dc1, o)
   | .eof :: rest =>
       if sockErr then apply d { dc with sock := rest } (.recvErr false)
       else apply d { dc with sock := .eof :: rest } .recvEof
@@ -244,10 +249,11 @@ def doWrite (d : D) (dc : DConn) : DConn × List String :=
   if dc.peerGone && sends then apply d dc (.write .err)
   else
     let (dc1, o) := apply d dc (.write .done)
-    ({ dc1 with lastActivity := if sends && d.timeoutMs != 0 && !dc1.conn.suspended then d.now else dc1.lastActivity }, o)
+    (if sends && d.timeoutMs != 0 && !dc1.conn.suspended then { dc1 with lastActivity := d.now, actSeq := d.seq } else dc1, o)
 
 /-- call_handlers -/
 def callHandlers (d : D) (dc : DConn) (readReady writeReady forceClose : Bool) : D × DConn × List String :=
+  let d := { d with seq := d.seq + 1 }
   let fast := dc.conn.state == CState.init
   if eliRead dc.conn && (readReady || forceClose) then
     let (dc1, o1) := doRead d dc forceClose
@@ -312,8 +318,9 @@ def processResumes (d : D) : D × List String :=
     if dc.resuming && dc.conn.suspended then
       let (dc1, o) := apply d { dc with resuming := false } .resume
       let dc1 := { dc1 with lastActivity := if d.timeoutMs != 0 then d.now else dc1.lastActivity,
+                            actSeq := if d.timeoutMs != 0 then d.seq else dc1.actSeq,
                             readReady := true, newData := true, inEready := true }
-      (setConn d dc1, out ++ o)
+      (setConn { d with seq := d.seq + 1 } dc1, out ++ o)
     else (setConn d { dc with resuming := false }, out)) (d, [])
 
 def processNew (d : D) : D × List String × List Nat :=
@@ -369,11 +376,15 @@ def roundEpoll (d : D) : D × List String :=
     if dc.conn.started && dc.conn.inEpollSet && !dc.conn.cleaned && dc.newData && sockReadable dc
     then { dc with readReady := true, newData := false } else dc }
   let (d, o2, fresh) := processNew d
+  -- membership of the eready list as left by the previous round / this epoll_wait
+  let readyBefore : List Nat := d.conns.filterMap fun dc =>
+    if live dc && !fresh.contains dc.idx &&
+       (dc.inEready || (dc.readReady && eliRead dc.conn) || eliWrite dc.conn || eliProcess dc.conn) then some dc.idx else none
   -- time-outs: the least recently active connection is always looked at
   let cand : List DConn := (d.conns.filter fun dc => live dc && !fresh.contains dc.idx)
   let lru := cand.foldl (fun (m : Option DConn) dc => match m with
     | none => some dc
-    | some x => if dc.lastActivity < x.lastActivity then some dc else some x) none
+    | some x => if dc.actSeq < x.actSeq then some dc else some x) none
   let (d, o3) : D × List String := match lru with
     | some dc =>
         if timedOut d dc then
@@ -398,12 +409,8 @@ def roundEpoll (d : D) : D × List String :=
     | some dc =>
       if !live dc || fresh.contains i then (d, out) else
       let hup := dc.peerGone && !dc.hupSeen && dc.conn.inEpollSet
-      let ready := hup || dc.inEready || (dc.readReady && (eliRead dc.conn)) || eliWrite dc.conn
-                   || dc.conn.state == CState.fullReqReceived || dc.conn.state == CState.closed
-                   || dc.conn.state == CState.headersProcessed
-                   || dc.conn.state == CState.normalBodyUnready || dc.conn.state == CState.chunkedBodyUnready
-                   || (dc.conn.state == CState.bodyReceiving && !dc.conn.buf.isEmpty)
-                   || (dc.conn.state == CState.init && !dc.conn.buf.isEmpty)
+      let ready := hup || readyBefore.contains i || dc.inEready || (dc.readReady && (eliRead dc.conn)) || eliWrite dc.conn
+                   || eliProcess dc.conn
       if !ready then (d, out) else
       let dc := if hup then { dc with hupSeen := true } else dc
       let dc := { dc with inEready := false }
@@ -528,12 +535,13 @@ def stepLine (d : D) (ws : List String) : D × List String :=
         | some ("mode", v) => { d with mode := v }
         | some ("timeout", v) => { d with timeoutMs := (v.toNat?.getD 0) * 1000 }
         | some ("suspend", v) => { d with suspend := v == "1" }
+        | some ("urilog", v) => { d with uriLog := v == "1" }
         | _ => d) d
       (d, ["ok"])
   | ["start"] =>
       if d.mode != "select" && d.mode != "epoll" then (d, ["bad-op"]) else
       ({ d with started := true,
-                cfg := { uriLog := true, allowSuspend := d.suspend, epoll := d.mode == "epoll",
+                cfg := { uriLog := d.uriLog, allowSuspend := d.suspend, epoll := d.mode == "epoll",
                          f9Fixed := f9Fixed, allocBypassFixed := allocBypassFixed,
                          epollBypassFixed := epollBypassFixed, f14Fixed := f14Fixed } }, ["started"])
   | "resp" :: rid :: kvs =>
@@ -567,8 +575,8 @@ def stepLine (d : D) (ws : List String) : D × List String :=
         | some c =>
             if (findConn d c).isSome then (d, ["bad-op"]) else
             let app : HApp := { behs := lookup d.behs c, resps := d.resps }
-            let dc : DConn := { idx := c, conn := Conn.init app, lastActivity := d.now }
-            ({ d with conns := dc :: d.conns }, [s!"arrive c={c}"])
+            let dc : DConn := { idx := c, conn := Conn.init app, lastActivity := d.now, actSeq := d.seq }
+            ({ d with conns := dc :: d.conns, seq := d.seq + 1 }, [s!"arrive c={c}"])
         | none => (d, ["bad-op"])
     | "send" :: c :: _hex :: toks =>
         match c.toNat?.bind (findConn d) with
@@ -608,6 +616,14 @@ def stepLine (d : D) (ws : List String) : D × List String :=
         match c.toNat?.bind (findConn d) with
         | none => (d, ["bad-op"])
         | some dc => (setConn d { dc with resumeIn := none, resuming := true }, ["ok"])
+    | ["reply-out", c, rid] =>
+        match c.toNat?.bind (findConn d), rid.toNat? with
+        | some dc, some rid =>
+            if !dc.conn.started || dc.conn.cleaned then (d, ["bad-op"]) else
+            let d := { d with seq := d.seq + 1 }
+            let (dc1, o) := apply d dc (.appQueue (mkResp dc.conn.app rid) (mkEnv d dc))
+            (setConn d dc1, o ++ ["ok"])
+        | _, _ => (d, ["bad-op"])
     | ["fail-calloc", _] => ({ d with failCalloc := true }, ["ok"])
     | ["fail-epoll-add", _] => ({ d with failEpollAdd := true }, ["ok"])
     | ["stop"] =>
